@@ -140,7 +140,12 @@ func (fs *frameState) write(tok string) string {
 	ws := fs.rw.writes[before:]
 	fs.n++
 	if len(ws) != 2 {
-		return fmt.Sprintf("writes:%d", len(ws))
+		// another Write-call structure than (varint, payload): report all the bytes, the driver re-frames them
+		var all []byte
+		for _, w := range ws {
+			all = append(all, w...)
+		}
+		return fmt.Sprintf("writes:%d %s", len(ws), hexs(all))
 	}
 	return hexs(ws[0]) + " " + hexs(ws[1])
 }
